@@ -124,6 +124,142 @@ def run(chk, n, exh_len):
         chk.extra["strata"][f"random_{kn}"] = len(cases)
 
 
+# ----------------------------------------------------------------------------- model texts of unusual spelling / replaced models
+EFFECT_CANON = "e = priority(p_eft) || deny"
+_SPECS = {}
+
+
+def spec_with(**extra):
+    """spec_check carrying what a replay needs to rebuild the enforcer (mgmt.run_cases copies case_extra into the replay)"""
+    key = repr(sorted(extra.items()))
+    if key not in _SPECS:
+        def sc(kind, rows, lf, ops, obs, impl):
+            return spec_check(kind, rows, lf, ops, obs, impl)
+        sc.case_extra = dict(extra)
+        _SPECS[key] = sc
+    return _SPECS[key]
+
+
+def spelled_text(kind, effect_line):
+    """the kind's model text with the effect line spelled as given (the text after the key "e")"""
+    text = kind.model_text()
+    assert EFFECT_CANON in text
+    return text.replace(EFFECT_CANON, "e" + effect_line)
+
+
+def switched_enforcer(start, switch, target_text):
+    """-> a callable mgmt.Impl uses in place of the Enforcer class: the enforcer it returns has lived on the model of
+    kind `start` (a few rules loaded, a few requests decided) and was then switched to the target model -
+    'set_model' = set_model(the new Model object); 'set_model+init_rm_map' = the same followed by init_rm_map() (needed
+    when the first model had no role definition and the new one has); 'load_model' = the model FILE the enforcer was
+    built from is rewritten and load_model() re-reads it.  mgmt.Impl then attaches the adapter and loads the policy."""
+    import os
+    import tempfile
+    import casbin
+
+    def make(m):
+        sk = mgmt.KINDS[start]
+        uni = mgmt.Universe(sk)
+        import random
+        r0 = random.Random(7)
+        rows = []
+        for _ in range(3):
+            r = mgmt.S(uni.p_rule(r0))
+            if ("p", r) not in rows:
+                rows.append(("p", r))
+        if sk.g:
+            rows.append(("g", mgmt.S(uni.g_rule(r0))))
+        ad0 = mgmt.RecAdapter(rows)
+        if switch == "load_model":
+            d = tempfile.mkdtemp(prefix="c07m_")
+            path = os.path.join(d, "model.conf")
+            try:
+                with open(path, "w") as f:
+                    f.write(sk.model_text())
+                e = casbin.Enforcer(path, ad0)
+                for req in uni.requests()[:6]:
+                    e.enforce(*mgmt.S(req))
+                with open(path, "w") as f:
+                    f.write(target_text)
+                e.load_model()
+            finally:
+                try:
+                    os.unlink(path)
+                    os.rmdir(d)
+                except OSError:
+                    pass
+            return e
+        from casbin.model import Model
+        m0 = Model()
+        m0.load_model_from_text(sk.model_text())
+        e = casbin.Enforcer(m0, ad0)
+        for req in uni.requests()[:6]:
+            e.enforce(*mgmt.S(req))
+        e.set_model(m)
+        if switch == "set_model+init_rm_map":
+            e.init_rm_map()
+        return e
+    return make
+
+
+# (target kind, kind of the model the enforcer lived on before, how the switch is made)
+REPLACED = [("prio", "acl", "set_model"), ("prio", "acl_deny", "set_model"), ("prio", "rbac", "set_model"), ("prio", "acl", "load_model"),
+            ("prio", "rbac_deny", "load_model"),
+            ("prio_rbac", "rbac", "set_model"), ("prio_rbac", "rbac_deny", "set_model"), ("prio_rbac", "rbac", "load_model"),
+            ("prio_rbac", "acl", "set_model+init_rm_map"), ("prio_rbac", "acl_deny", "set_model+init_rm_map")]
+
+
+def replaced_kwargs(target, start, switch):
+    return dict(enforcer_cls=switched_enforcer(start, switch, mgmt.KINDS[target].model_text()))
+
+
+def run_spelled_and_replaced(chk, n):
+    """explicit-priority strata: (a) the model TEXT spells the effect line unusually - what the library refuses is fine, what
+    it accepts is an explicit-priority model and gets the same histories and the same SPEC; (b) the enforcer's model was
+    REPLACED by the priority model (set_model / load_model) before the history starts"""
+    rng = chk.rng
+    st = chk.extra.setdefault("strata", {})
+    spellings = [sp.replace("subjectPriority", "priority") for sp in c07_subject.SPELLINGS] + \
+                [c07_subject.gen_spelling(rng).replace("subjectPriority", "priority") for _ in range(6)]
+    acc = ref = ncases = 0
+    for i, sp in enumerate(spellings):
+        kn = ("prio", "prio_rbac")[i % 2]
+        kind = mgmt.KINDS[kn]
+        text = spelled_text(kind, sp)
+        try:
+            mgmt.Impl(kind, [], True, model_text=text)
+        except Exception:  # noqa
+            ref += 1                      # refused by the library: nothing is stored, nothing is decided
+            chk.count(None)
+            continue
+        acc += 1
+        cases = []
+        for _ in range(max(4, n // 12)):
+            g = mgmt.Gen(rng, kind, W)
+            rows = g.rows(rng.randint(0, 8))
+            cases.append((rows, True, g.history(rng.randint(3, 12), final_probe=True)))
+        mgmt.run_cases(chk, kind, cases, spec_with(model_text=text), label=f"spelled-{kn}", impl_kwargs=dict(model_text=text),
+                       key_fn=lambda k, r, o, _t=text: ("spelled", _t, k.name, repr([x for x in o if x[0] < 50])))
+        ncases += len(cases)
+    st["explicit_priority_effect_line_spellings"] = st.get("explicit_priority_effect_line_spellings", 0) + len(spellings)
+    st["explicit_priority_spellings_accepted_by_the_library"] = st.get("explicit_priority_spellings_accepted_by_the_library", 0) + acc
+    st["explicit_priority_spellings_refused_by_the_library"] = st.get("explicit_priority_spellings_refused_by_the_library", 0) + ref
+    st["explicit_priority_spelled_histories"] = st.get("explicit_priority_spelled_histories", 0) + ncases
+    total = 0
+    for target, start, switch in REPLACED:
+        kind = mgmt.KINDS[target]
+        cases = []
+        for _ in range(max(6, n // 8)):
+            g = mgmt.Gen(rng, kind, W)
+            rows = g.rows(rng.randint(0, 8))
+            cases.append((rows, True, g.history(rng.randint(3, 12), final_probe=True)))
+        mgmt.run_cases(chk, kind, cases, spec_with(replaced=[target, start, switch]), label=f"model-replaced-{target}-after-{start}-by-{switch}",
+                       impl_kwargs=replaced_kwargs(target, start, switch),
+                       key_fn=lambda k, r, o, _v=(start, switch): ("replaced", _v, k.name, repr([x for x in o if x[0] < 50])))
+        total += len(cases)
+    st["explicit_priority_model_replaced_histories"] = st.get("explicit_priority_model_replaced_histories", 0) + total
+
+
 def main():
     chk = Check(PROP)
     chk.rule = ("explicit-priority models (priorities from {1,2,2,5,10}, effect column allow/deny/other): exhaustive sequences "
@@ -135,6 +271,11 @@ def main():
                  "1-3 edit/save/reload rounds on the same enforcer, role chains of 11-16 links; filtered-loading stratum: "
                  "explicit- and subject-priority models on a FilteredFileAdapter, load_filtered_policy followed by "
                  "load_increment_filtered_policy of further subsets; non-trivial = non-empty hierarchy and policy")
+    chk.rule += ("; model texts whose effect line is spelled unusually (blanks / tabs / line continuation / comment between the "
+                 "pieces of 'priority(p.eft) || deny' and 'subjectPriority(p.eft) || deny'): a spelling the library refuses is "
+                 "not judged, one it accepts gets the same histories / hierarchies and the same SPEC; enforcers whose MODEL WAS "
+                 "REPLACED (first life on an allow-override / deny-override / allow-and-deny model, ACL or RBAC, then set_model or "
+                 "load_model of the rewritten model file, set_adapter, load_policy) before the same histories / rounds")
     chk.assumptions = ["priorities are decimal strings (non-numeric keys are outside the property)",
                        "subject-priority model: names and domains do not contain '::' (get_name_with_domain is then injective)",
                        "the model was loaded once (priority_index is only set by load_policy in this code base)"]
@@ -154,16 +295,20 @@ def main():
         c07_subject.run(chk, soracle, 6000)
         c07_filtered.run(chk, soracle, 800)
         c07_values.run(chk, 4000)
+        run_spelled_and_replaced(chk, 1200)
     else:
         run(chk, 250, 2)
         c07_subject.run(chk, soracle, 500)
         c07_filtered.run(chk, soracle, 80)
         c07_values.run(chk, 300)
+        run_spelled_and_replaced(chk, 100)
         if (chk.broken() or chk.anchor_changed) and not chk.spec_failures:
             run(chk, 1000, 3)
             c07_subject.run(chk, soracle, 3000, exhaustive=False)
             if not chk.spec_failures:
                 c07_values.run(chk, 3000)
+            if not chk.spec_failures:
+                run_spelled_and_replaced(chk, 400)
     chk.finish()
 
 
@@ -193,6 +338,16 @@ def replay(chk, soracle):
     if case.get("stratum") == "subject-priority":
         c07_subject.run(chk, soracle, 0, exhaustive=False, seed_cases=[case["case"]])
         return chk.finish()
+    if case.get("model_text"):
+        try:
+            return mgmt.replay_case(chk, spec_with(model_text=case["model_text"]), impl_kwargs=dict(model_text=case["model_text"]))
+        except SystemExit:
+            raise
+        except Exception as ex:  # noqa
+            print("replay passes: the library refuses this spelling of the model (nothing is decided):", type(ex).__name__, ex)
+            raise SystemExit(0)
+    if case.get("replaced"):
+        return mgmt.replay_case(chk, spec_with(replaced=case["replaced"]), impl_kwargs=replaced_kwargs(*case["replaced"]))
     return mgmt.replay_case(chk, spec_check)
 
 
